@@ -100,6 +100,13 @@ def frame_to_element(f, fail_on=None):
     return digest(f)
 
 
+def frame_to_list(f, fail_on=None):
+    '''A sized, unhashable result (a list of labels): delivered as one element per label.'''
+    if fail_on is not None and f.name == fail_on:
+        raise TaskFailure('task failed on frame ' + str(f.name))
+    return [_n(x) for x in f.columns.values.tolist()] + [_n(f.name)]
+
+
 # functions that build containers and touch process-global / lazily cached state (thread mode)
 def build_and_probe(v, n=3):
     import static_frame as sf
